@@ -1143,7 +1143,7 @@ pub fn run_pair_only(
 /// the resource class so it is re-created"), the new class has one fresh
 /// key, so a key roll that was in progress is over: roll stages are then
 /// compared as "active".
-fn align_recreated(twin: &Value, faulted: &Value) -> (Value, Value) {
+pub(crate) fn align_recreated(twin: &Value, faulted: &Value) -> (Value, Value) {
     let mut twin = twin.clone();
     let mut faulted = faulted.clone();
     let names: Vec<String> = twin.get("cas").and_then(|c| c.as_object())
